@@ -79,8 +79,16 @@ def generate(seed, tier):
             nsl = rng.choice([256, 512, 1000, 511])
         if tier == "thorough" and rng.random() < 0.004:
             nsl = 4300                                    # longer than GET_EYE's default nslots=4096: truncation path
+        pattern = rng.choice(["random", "random", "prbs", "blocks", "sparse", "dense"])
+        inv = False
+        if rng.random() < 0.08:
+            # pulse-position-like frames (one mark per 8/16/32 slots, or the complement): strongly unbalanced but
+            # still random patterns; long enough that each level keeps >= 12 slots at each slot parity
+            pattern = rng.choice(["ppm8", "ppm16", "ppm32", "ppm32"])
+            inv = rng.random() < 0.4
+            nsl = rng.choice([512, 768, 1024])
         ops.append({"op": "case", "sps": sps, "R": rng.choice([1e9, 10e9, 2.5e9]), "nslots": nsl,
-                    "pattern": rng.choice(["random", "random", "prbs", "blocks", "sparse", "dense"]),
+                    "pattern": pattern, "inv": inv,
                     "bseed": rng.getrandbits(31),
                     "a": a, "swing": swing, "bwf": rng.uniform(0.7, 1.0),
                     "sigma": rng.uniform(0.005, 0.012) if (corner and rng.random() < 0.5) else rng.uniform(0.005, 0.05),
@@ -314,7 +322,7 @@ def execute(spec, rec, known):
         _, ops = generate(spec["seed"], "quick")
         case = dict([o for o in ops if o["op"] == "case"][0], nslots=spec["nslots"])
         case["seeds"] = case["seeds"][:1]
-        if case["pattern"] == "blocks":
+        if case["pattern"] == "blocks" or case["pattern"].startswith("ppm"):
             case["pattern"] = "random"
         spec = dict(spec, ops=[case])
     core.run_ops(b, spec["ops"], rec, "C17/finite")
